@@ -158,3 +158,77 @@ pub fn any_grease_id() -> VarInt {
         VarInt::try_from_u64(0x1f * (n as u64) + 0x21).unwrap()
     }
 }
+
+/// Model of the private `core::str::validations::run_utf8_validation` (word-at-a-time validator that CBMC
+/// unrolls very expensively). Byte-wise validator of the same language, written from Unicode 15 Table 3-7
+/// (well-formed UTF-8 byte sequences). Used via `#[kani::stub]` where strings are built; compared with the
+/// real validator on every input <= 4 bytes in `c11_utf8_model_equiv_*`.
+pub fn utf8_model_ok(v: &[u8]) -> bool {
+    let n = v.len();
+    let mut i = 0;
+    while i < n {
+        let b = v[i];
+        if b < 0x80 {
+            i += 1;
+            continue;
+        }
+        let (need, lo, hi): (usize, u8, u8) = if b >= 0xC2 && b <= 0xDF {
+            (1, 0x80, 0xBF)
+        } else if b == 0xE0 {
+            (2, 0xA0, 0xBF)
+        } else if (b >= 0xE1 && b <= 0xEC) || b == 0xEE || b == 0xEF {
+            (2, 0x80, 0xBF)
+        } else if b == 0xED {
+            (2, 0x80, 0x9F)
+        } else if b == 0xF0 {
+            (3, 0x90, 0xBF)
+        } else if b >= 0xF1 && b <= 0xF3 {
+            (3, 0x80, 0xBF)
+        } else if b == 0xF4 {
+            (3, 0x80, 0x8F)
+        } else {
+            return false;
+        };
+        if n - i <= need {
+            return false;
+        }
+        if v[i + 1] < lo || v[i + 1] > hi {
+            return false;
+        }
+        let mut k = 2;
+        while k <= need {
+            if v[i + k] < 0x80 || v[i + k] > 0xBF {
+                return false;
+            }
+            k += 1;
+        }
+        i += need + 1;
+    }
+    true
+}
+
+pub fn utf8_validation_stub(v: &[u8]) -> Result<(), core::str::Utf8Error> {
+    if utf8_model_ok(v) {
+        Ok(())
+    } else {
+        // only is_err() is observed by the code under test (DecodingError::InvalidString / ErrorCode::Datagram)
+        Err(unsafe { core::mem::transmute::<(usize, Option<u8>), core::str::Utf8Error>((0usize, Some(1u8))) })
+    }
+}
+
+/// stub for `httlib_huffman::decode` in harnesses that assume the Huffman flag clear: the path is cut
+/// (the decode tables of httlib-huffman are a wall for CBMC and outside every claim)
+pub fn huffman_decode_cut(_src: &[u8], _dst: &mut Vec<u8>, _speed: httlib_huffman::DecoderSpeed) -> Result<(), httlib_huffman::DecoderError> {
+    kani::assume(false);
+    Ok(())
+}
+/// model for `httlib_huffman::encode`: the coder either fails (non-ASCII) or yields a code that is NOT shorter
+/// than the input, so the real `encode_string` takes its literal branch (the Huffman branch is outside the claim)
+pub fn huffman_encode_not_shorter(src: &[u8], dst: &mut Vec<u8>) -> Result<(), httlib_huffman::EncoderError> {
+    let mut i = 0;
+    while i < src.len() {
+        dst.push(src[i]);
+        i += 1;
+    }
+    Ok(())
+}
